@@ -44,7 +44,7 @@ func Parse(pattern string, desc bool) *Glob {
 outer:
 	for i := 0; i < len(pattern); i++ {
 		switch pattern[i] {
-		case '[', '*', '?':
+		case '[', '*', '?', '\\':
 			_, err := Match(pattern, "whatever")
 			if err == nil {
 				isGlob = true
@@ -54,8 +54,8 @@ outer:
 		n++
 	}
 	if n == 0 {
-		g.Limits = []string{pattern, pattern}
-		g.IsGlob = false
+		// no literal prefix, the range cannot be limited
+		g.IsGlob = isGlob
 		return g
 	}
 	var a, b string
